@@ -1506,11 +1506,34 @@ class WatchSession:
             try:
                 return await asyncio.wait_for(coro, self.timeout)
             except asyncio.TimeoutError:
-                raise E3Timeout(f"watch session: {what} did not finish in {self.timeout} s", {
-                    "waiting_gates": sorted(self._ctx.gates.waiting),
-                    "events_tail": self._ctx.events[-8:],
-                }) from None
+                raise E3Timeout(f"watch session: {what} did not finish in {self.timeout} s",
+                                self._diag()) from None
         return self._loop.run_until_complete(guarded())
+
+    def _diag(self) -> dict:
+        """State of the director for a timeout report."""
+        ctx = self._ctx
+        diag = {"waiting_gates": sorted(ctx.gates.waiting), "events_tail": ctx.events[-8:],
+                "nevents": len(ctx.events), "session_error": self.error}
+        with contextlib.suppress(Exception):
+            task = self._serve_task
+            diag["serve"] = ("no task" if task is None else "running" if not task.done()
+                             else "cancelled" if task.cancelled() else repr(task.exception() or "returned"))
+            h = ctx.handler
+            if h is not None:
+                w = h.watcher
+                diag["stop_event"] = h.stop_event.is_set()
+                diag["draining"] = h.scheduler.draining
+                diag["builder"] = {"resume": h.builder.resume.is_set(),
+                                   "running": [t.get_name() for t in h.builder.running_tasks],
+                                   "returncode": int(h.builder.returncode.value)}
+                diag["watcher"] = {"start": w.start_watching.is_set(), "busy": w.busy_watching.is_set(),
+                                   "end": w.end_watching.is_set(), "done": w.done_watching.is_set(),
+                                   "updated": sorted(map(str, w.updated)), "deleted": sorted(map(str, w.deleted))}
+                diag["db_held"] = None if h.db._held is None else h.db._held.task.get_name()
+            diag["tasks"] = sorted(t.get_name() for t in asyncio.all_tasks(self._loop) if not t.done())[:30]
+            diag["log_tail"] = self._cap.records[-5:]
+        return diag
 
     def __enter__(self) -> "WatchSession":
         global _CTX
@@ -1548,8 +1571,34 @@ class WatchSession:
         done, _ = await asyncio.wait({idle, self._serve_task}, return_when=asyncio.FIRST_COMPLETED)
         if self._serve_task in done and not idle.done():
             idle.cancel()
-            self._serve_task.result()
-        await idle
+        with contextlib.suppress(asyncio.CancelledError):
+            await idle
+        await self._check_alive()
+
+    async def _check_alive(self):
+        """``wait_for_idle`` also returns when the director's stop event fires.  Nobody asked the
+        director to stop, so that means serve() is ending on its own (an exception in one of its
+        loops, or an early return): wait for it and remember why, instead of handing out a phase
+        result that looks idle and letting the next ``sync()`` run into its timeout."""
+        handler = self._ctx.handler
+        if not (self._serve_task.done() or handler.stop_event.is_set()):
+            return
+        with contextlib.suppress(BaseException):
+            await asyncio.wait_for(asyncio.shield(self._serve_task), 30)
+        if not self._serve_task.done():
+            self.error = "serve() is stopping (stop event set) but did not return within 30 s"
+        elif self._serve_task.cancelled():
+            self.error = "serve() was cancelled"
+        elif self._serve_task.exception() is not None:
+            exc = self._serve_task.exception()
+            self.error = f"{type(exc).__name__}: {exc}"
+            cause = exc.__cause__
+            while cause is not None:
+                self.error += f" <- {type(cause).__name__}: {cause}"
+                cause = cause.__cause__
+        else:
+            self.returncode = int(self._serve_task.result().returncode.value)
+            self.error = f"serve() returned on its own with return code {self.returncode}"
 
     async def _graph(self) -> str:
         async with _harness_txn(self._ctx, self._db):
@@ -1559,6 +1608,9 @@ class WatchSession:
         ctx = self._ctx
         res = BuildResult()
         res.returncode = int(ctx.handler.builder.returncode.value)
+        if self.error is not None:
+            # The director died during this phase: an observable, reported like build() does.
+            res.error, res.returncode = self.error, -1
         graph_text = self._run(self._graph(), "graph dump")
         _collect(ctx, res, graph_text, self._mark_event, self._mark_cmd)
         self._mark_event, self._mark_cmd = len(ctx.events), len(ctx.commands)
@@ -1575,6 +1627,8 @@ class WatchSession:
 
     def sync(self) -> None:
         """Return when the watcher has handled every file-system event queued so far."""
+        if self.error is not None or self._serve_task.done():
+            raise E3Error(f"the watching director is no longer running: {self.error}")
         self._nbarrier += 1
         name = f"{BARRIER_PREFIX}{self._nbarrier}"
         event = asyncio.Event()
@@ -1599,6 +1653,9 @@ class WatchSession:
 
     def rebuild(self) -> BuildResult:
         """``start_build_phase`` (what ``stepup rebuild`` calls) then ``wait_for_idle``."""
+        if self.error is not None or self._serve_task.done():
+            raise E3Error(f"the watching director is no longer running: {self.error}")
+
         async def go():
             await self._ctx.handler.start_build_phase()
             await self._idle()
@@ -1641,7 +1698,7 @@ class WatchSession:
                 try:
                     self.returncode = int(self._serve_task.result().returncode.value)
                 except Exception as exc:  # noqa: BLE001
-                    self.error = f"{type(exc).__name__}: {exc}"
+                    self.error = self.error or f"{type(exc).__name__}: {exc}"
             with contextlib.suppress(Exception):
                 self._run(self._reporter.close(), "reporter close")
         finally:
